@@ -21,13 +21,17 @@ def path_of(root, m):
     return {"a": "a.py", "b": "b.py", "c": "c.py", "pkg": "pkg/__init__.py", "pkg.sub": "pkg/sub.py", "other": "other.py", "imp": "imp.py", "tool": "tool.py"}[m]
 
 
-def write_module(root, m, version, stamp):
-    p = os.path.join(root, path_of(root, m))
-    os.makedirs(os.path.dirname(p), exist_ok=True)
+def module_text(m, version):
     imports = "".join("import %s\n" % d for d in DEPS[m])
     if m == "imp":
         imports = "try:\n    import frag\nexcept SyntaxError:\n    pass\n" + imports
-    open(p, "w").write("%sVERSION = %d\n\ndef f(x: int) -> int:\n    return x\n" % (imports, version))     # one digit: an edit keeps the size
+    return "%sVERSION = %d\n\ndef f(x: int) -> int:\n    return x\n" % (imports, version)     # one digit: an edit keeps the size
+
+
+def write_module(root, m, version, stamp):
+    p = os.path.join(root, path_of(root, m))
+    os.makedirs(os.path.dirname(p), exist_ok=True)
+    open(p, "w").write(module_text(m, version))
     os.utime(p, (stamp, stamp))
 
 
@@ -55,6 +59,10 @@ def gen_history(rng):
         order = rng.sample(["a", "b", "c", "pkg", "other", "imp", "tool"], rng.choice([1, 2, 3, 4]))
         edits = [m for m in MODS if rng.random() < .12]
         runs.append({"groups": groups, "order": order, "edits": edits, "disable": rng.random() < .12})
+        if rng.random() < .3:
+            # the same interpreter goes on: hooks uninstalled, some sources edited, the modules imported again without a hook
+            runs.append({"inproc": True, "groups": [], "order": rng.sample(["a", "b", "c", "pkg", "other", "imp", "tool"], rng.choice([1, 2, 3])),
+                         "edits": [m for m in MODS if rng.random() < .15], "disable": runs[-1]["disable"]})
     return runs
 
 
@@ -75,6 +83,11 @@ CATALOGUE = [
     # a hooked module that fails to compile (its importer swallows the error), followed by the first import of an un-hooked module; later hook that one
     [{"groups": [[["frag"], "A"]], "order": ["imp"], "edits": []}, {"groups": [[["other", "imp"], "A"]], "order": ["imp"], "edits": []}],
     [{"groups": [[["frag", "imp"], "B"]], "order": ["imp", "a"], "edits": []}, {"groups": [[["a", "b", "other"], "B"]], "order": ["a", "other"], "edits": []}],
+    # one interpreter: hooked import, hook uninstalled, the same modules imported again by the ordinary machinery (as they are / after an
+    # edit); then a fresh interpreter hooks them again
+    [{"groups": [[["a", "b"], "A"]], "order": ["a"], "edits": []}, {"inproc": True, "groups": [], "order": ["a"], "edits": []}, {"groups": [[["a", "b"], "A"]], "order": ["a"], "edits": []}],
+    [{"groups": [[["a", "b"], "A"]], "order": ["a"], "edits": []}, {"inproc": True, "groups": [], "order": ["a"], "edits": ["a", "b"]}, {"groups": [[["a", "b"], "A"]], "order": ["a"], "edits": []}],
+    [{"groups": [[["pkg", "other"], "B"]], "order": ["pkg"], "edits": []}, {"inproc": True, "groups": [], "order": ["pkg", "other"], "edits": ["pkg.sub"]}, {"groups": [[["pkg"], "B"]], "order": ["pkg", "other"], "edits": []}, {"groups": [], "order": ["pkg"], "edits": []}],
     # a run with JAXTYPING_DISABLE=1 in the environment, then the identical configuration with checking on (and the converse)
     [{"groups": [[["a", "b"], "A"]], "order": ["a"], "edits": [], "disable": True}, {"groups": [[["a", "b"], "A"]], "order": ["a"], "edits": []}],
     [{"groups": [[["pkg"], "B"]], "order": ["pkg"], "edits": []}, {"groups": [[["pkg"], "B"]], "order": ["pkg"], "edits": [], "disable": True}, {"groups": [[["pkg"], "B"]], "order": ["pkg"], "edits": ["pkg.sub"]}],
@@ -118,12 +131,23 @@ def main():
             versions = {m: 1 for m in MODS}
             stamps = {m: BASE_MTIME + i for i, m in enumerate(MODS)}
             out = []
-            for run in hist:
+            i = 0
+            while i < len(hist):
+                run = hist[i]
                 for m in run["edits"]:
                     versions[m] = versions[m] % 9 + 1
                     stamps[m] += 100
                     write_module(root, m, versions[m], stamps[m])
+                versions1 = dict(versions)
                 cfg = {"groups": run["groups"], "order": run["order"], "modules": MODS}
+                follower = hist[i + 1] if i + 1 < len(hist) and hist[i + 1].get("inproc") else None
+                if follower is not None:
+                    writes = []
+                    for m in follower["edits"]:
+                        versions[m] = versions[m] % 9 + 1
+                        stamps[m] += 100
+                        writes.append([path_of(root, m), module_text(m, versions[m]), stamps[m]])
+                    cfg["then"] = {"order": follower["order"], "writes": writes}
                 renv = dict(env)
                 if run.get("disable"):
                     renv["JAXTYPING_DISABLE"] = "1"
@@ -134,7 +158,11 @@ def main():
                 r = json.loads(lines[-1])
                 if "error" in r:
                     return r
-                out.append({"executed": r["executed"], "pycs": r["pycs"], "versions": dict(versions), "hooked": hooked_map(run["groups"]), "disable": bool(run.get("disable"))})
+                out.append({"executed": r["executed"], "pycs": r["pycs"], "versions": versions1, "hooked": hooked_map(run["groups"]), "disable": bool(run.get("disable"))})
+                i += 1
+                if follower is not None:
+                    out.append({"executed": r["executed2"], "pycs": r["pycs"], "versions": dict(versions), "hooked": {}, "disable": bool(run.get("disable")), "inproc": True})
+                    i += 1
             return {"runs": out}
         finally:
             shutil.rmtree(root, ignore_errors=True)
@@ -160,8 +188,8 @@ def main():
                 if x["disable"] and e["version"] == x["versions"][mod]:
                     continue        # checking switched off for this run: instrumented or not, it behaves like plain code (C19); only staleness is judged
                 if e["kind"] != want_kind or e["version"] != x["versions"][mod]:
-                    R.violation("property", "run %d of the history executes module %s as %s from source version %d; the current hook configuration and source call for %s from version %d. History: %s" % (
-                        k + 1, mod, e["kind"], e["version"], want_kind, x["versions"][mod], json.dumps(h)), {"history": h, "run": k, "module": mod, "got": e, "expected": {"kind": want_kind, "version": x["versions"][mod]}},
+                    R.violation("property", "run %d of the history%s executes module %s as %s from source version %d; the current hook configuration and source call for %s from version %d. History: %s" % (
+                        k + 1, " (same interpreter as the run before, hooks uninstalled, modules imported again)" if x.get("inproc") else "", mod, e["kind"], e["version"], want_kind, x["versions"][mod], json.dumps(h)), {"history": h, "run": k, "module": mod, "got": e, "expected": {"kind": want_kind, "version": x["versions"][mod]}},
                         key={"kind": "wrong-code", "direction": "%s-instead-of-%s" % (e["kind"].split(":")[0], want_kind.split(":")[0]), "stale": e["version"] != x["versions"][mod]})
             mexec = dict((y.split("=")[0], y.split("=")[1]) for y in mruns[k].split(",")) if k < len(mruns) and mruns[k] else {}
             gexec = {mod: "%s@%d" % (e["kind"], e["version"]) for mod, e in got.items()}
@@ -177,7 +205,7 @@ def main():
                     {"theorem_file": "coq/props/C18.v", "log": R.broken_proof}, no_input=not any(v["kind"] == "property" for v in R.violations))
     R.coverage.update(evaluations=nruns, distinct_nontrivial=len(nontriv), samples=samples, histories=len(hists),
                       rule="%d catalogue + %d PRNG histories of 2-5 runs over one scratch directory with a shared __pycache__; every run is a fresh interpreter (bytecode writing enabled) choosing hooked subsets (one or two install calls), a spy typechecker or None, an import order with nested imports (a->b, c->a, pkg->pkg.sub), "
-                           "after optional same-size source edits with old mtimes; a module that does not compile (hooked or not, its importer swallows the SyntaxError); runs with JAXTYPING_DISABLE=1 (their own instrumentation is not judged, what they leave in the cache is). Oracle = the property itself: per run and module, instrumented? by which checker? from the current source version? Model (Coq run_history with the patched method read from the source) compared per run. non-trivial = history with >= 2 runs and a hook" % (len(CATALOGUE), n))
+                           "after optional same-size source edits with old mtimes; a module that does not compile (hooked or not, its importer swallows the SyntaxError); in-process continuations (hooks uninstalled, optional edits, the modules dropped from sys.modules and imported again un-hooked by the same interpreter); runs with JAXTYPING_DISABLE=1 (their own instrumentation is not judged, what they leave in the cache is). Oracle = the property itself: per run and module, instrumented? by which checker? from the current source version? Model (Coq run_history with the patched method read from the source) compared per run. non-trivial = history with >= 2 runs and a hook" % (len(CATALOGUE), n))
     R.assumptions += ["CPython validates a .pyc by source mtime and size (modelled as version equality)", "md5 of the typechecker string treated as injective"]
     sys.exit(R.finish())
 
